@@ -13,7 +13,7 @@ import (
 func (p *Prog) atomicFields() map[*types.Var]bool {
 	out := map[*types.Var]bool{}
 	for _, fn := range p.Funcs {
-		for _, in := range p.Info(fn).Instrs {
+		for _, in := range p.Own(fn) {
 			if k, addr := atomicOp(in); k != "" {
 				if f, _ := addrField(addr); f != nil {
 					out[f] = true
@@ -72,7 +72,7 @@ func clAtomicWriteDiscipline(c *Ctx) {
 			ok := isFreshBase(w.base) || p.freshItemIn(w.fn, w.base)
 			why := ""
 			for _, e := range exceptions {
-				if (e.fn == fname(w.fn) || strings.HasPrefix(fname(w.fn), e.fn+"$")) && (e.field == "*" || e.field == f.Name()) {
+				if (e.fn == fname(p.Root(w.fn)) || strings.HasPrefix(fname(p.Root(w.fn)), e.fn+"$")) && (e.field == "*" || e.field == f.Name()) {
 					ok = true
 					why = " [exception: " + e.why + "]"
 				}
@@ -101,7 +101,7 @@ func clCASOutcomesConsumed(c *Ctx) {
 			continue
 		}
 		fi := p.Info(fn)
-		for _, in := range fi.Instrs {
+		for _, in := range p.Own(fn) {
 			isCAS := false
 			var args []ssa.Value
 			if k, _ := atomicOp(in); k == "CAS" {
